@@ -371,7 +371,7 @@ def eval_lin(l, point):
 # ----------------------------------------------------------------------------------------------------------------
 EXTRACT_V = """From Coq Require Import Extraction ExtrOcamlBasic QArith.
 From ORatio Require Import smt.Lra smt.LraSem smt.LraCheck.
-Extraction "lra_model.ml" step init_state lb_lin ub_lin value_lin watching Qred asrt_atom refute_check
+Extraction "lra_model.ml" step init_state lb_lin ub_lin value_lin equates watching Qred asrt_atom refute_check
   chk_rows_vals chk_defs_vals chk_within chk_rows_consequence.
 """
 
@@ -1222,4 +1222,173 @@ def gen_row_batch(rng):
         sc.add("checklits " + " ".join("%d %d" % (i, s) for i, s in zip(sub, sgs)))
         cons = [cons_of_rel(rels[i][0] if s else NEG[rels[i][0]], rels[i][1], rels[i][2]) for i, s in zip(sub, sgs)]
         sc.expect_checklits.append(fm_ok(cons, nv))
+    return sc
+
+
+
+# ----------------------------------------------------------------------------------------------------------------
+# round 4: the query functions (bounds / lb / ub / value / equates) -- generator and independent exact judge
+# ----------------------------------------------------------------------------------------------------------------
+def qd_lin_bounds(st, terms, const):
+    """exact (lb, ub) of const + sum c*x over the per-variable bounds of the dumped state; a bound is a pair (rational,
+    infinitesimal) ordered lexicographically, None = infinite"""
+    lo, hi = [Fraction(const), Fraction(0)], [Fraction(const), Fraction(0)]
+    for v, c in terms.items():
+        bl, bu = st["bounds"].get(2 * v, (None, ""))[0], st["bounds"].get(2 * v + 1, (None, ""))[0]
+        a, b = (bl, bu) if c > 0 else (bu, bl)
+        if lo is not None:
+            lo = None if a is None else [lo[0] + c * a[0], lo[1] + c * a[1]]
+        if hi is not None:
+            hi = None if b is None else [hi[0] + c * b[0], hi[1] + c * b[1]]
+    return (tuple(lo) if lo is not None else None), (tuple(hi) if hi is not None else None)
+
+
+def qd_fmt_lb(x):
+    return "-inf" if x is None else "%s,%s" % (fr(x[0]), fr(x[1]))
+
+
+def qd_fmt_ub(x):
+    return "+inf" if x is None else "%s,%s" % (fr(x[0]), fr(x[1]))
+
+
+def judge_queries(impl):
+    """Independent judge (python Fractions with infinitesimals) of every query / equates event of the implementation's trace.
+    -> (number judged, list of failures {scenario, event, expected, got})"""
+    n, bad = 0, []
+    classes = {}
+    judge_queries.classes = classes
+    for si, sc in enumerate(impl):
+        for r in sc:
+            E, R, S = r["E"], r["R"], r["S"]
+            if not E or not R or not S:
+                continue
+            if not (E.startswith("E query") or E.startswith("E equates")):
+                continue
+            try:
+                st = parse_state(S)
+            except (IndexError, ValueError):
+                continue
+            if E.startswith("E query"):
+                terms, const = p_lin(E.split()[2:])
+                lo, hi = qd_lin_bounds(st, terms, const)
+                val = [Fraction(const), Fraction(0)]
+                for v, c in terms.items():
+                    val[0] += c * st["vals"][v][0]
+                    val[1] += c * st["vals"][v][1]
+                exp = "R query %s %s %s %s %s,%s" % (qd_fmt_lb(lo), qd_fmt_ub(hi), qd_fmt_lb(lo), qd_fmt_ub(hi), fr(val[0]), fr(val[1]))
+            else:
+                a, b = E[len("E equates "):].split("|")
+                t0, c0 = p_lin(a.split())
+                t1, c1 = p_lin(b.split())
+                lo0, hi0 = qd_lin_bounds(st, t0, c0)
+                lo1, hi1 = qd_lin_bounds(st, t1, c1)
+                meet = (hi0 is None or lo1 is None or hi0 >= lo1) and (lo0 is None or hi1 is None or lo0 <= hi1)
+                exp = "R equates %d" % (1 if meet else 0)
+                NI, PI = (Fraction(-10**9), Fraction(0)), (Fraction(10**9), Fraction(0))
+                a0, b0, a1, b1 = lo0 or NI, hi0 or PI, lo1 or NI, hi1 or PI
+                if (a0, b0) == (a1, b1):
+                    cl = "equal"
+                elif not meet:
+                    cl = "disjoint_by_an_infinitesimal" if (b0[0] == a1[0] or b1[0] == a0[0]) else "disjoint"
+                elif b0 == a1 or b1 == a0:
+                    cl = "touching_closed_endpoint"
+                elif a0 < a1 and b1 < b0:
+                    cl = "first_strictly_contains_second"
+                elif a1 < a0 and b0 < b1:
+                    cl = "second_strictly_contains_first"
+                else:
+                    cl = "partial_overlap_or_shared_end"
+                classes[cl] = classes.get(cl, 0) + 1
+                if not t0 or not t1:
+                    classes["constant_vs_expression"] = classes.get("constant_vs_expression", 0) + 1
+                if None in (lo0, hi0, lo1, hi1):
+                    classes["with_an_infinite_end"] = classes.get("with_an_infinite_end", 0) + 1
+            n += 1
+            if exp != R:
+                bad.append({"scenario": si, "event": E, "expected": exp, "got": R})
+    return n, bad
+
+
+def gen_queries(rng):
+    """Histories for the query functions: per-variable intervals built from root assertions (closed, strict, one-sided, none),
+    then equates / query on pairs of expressions covering: equal intervals, disjoint, touching at one endpoint (closed and
+    separated by an infinitesimal), partially overlapping, one strictly containing the other (both argument orders),
+    constant vs variable, infinite ends; some of them below decisions."""
+    sc = Scenario()
+    sc.add("reset")
+    nv = rng.randint(3, 5)
+    for _ in range(nv):
+        sc.add("var")
+    sc.nvars = nv
+    k = 0
+    iv = {}
+    for v in range(nv):
+        shape = rng.choice(["closed", "closed", "open-lo", "open-hi", "half-lo", "half-hi", "free", "point"])
+        a = rng.choice([-2, 0, 1, 2, 4])
+        b = a + rng.choice([1, 2, 3, 4])
+        if shape == "point":
+            b = a
+        if shape in ("closed", "open-lo", "open-hi", "half-lo", "point"):
+            kind = "gt" if shape == "open-lo" else "geq"
+            sc.add("rel %s %s | %s" % (kind, lin_str([(v, 1)], 0), lin_str([], a)))
+            sc.add("assert %d 1" % k)
+            k += 1
+        if shape in ("closed", "open-lo", "open-hi", "half-hi", "point"):
+            kind = "lt" if shape == "open-hi" else "leq"
+            sc.add("rel %s %s | %s" % (kind, lin_str([(v, 1)], 0), lin_str([], b)))
+            sc.add("assert %d 1" % k)
+            k += 1
+        iv[v] = (a, b, shape)
+
+    def expr():
+        r = rng.random()
+        if r < 0.12:
+            return [], rng.choice([-2, 0, 1, 2, 3, 4, 5, 6, Fraction(5, 2)])
+        v = rng.randrange(nv)
+        if r < 0.5:
+            return [(v, 1)], 0
+        if r < 0.65:
+            return [(v, 1)], rng.choice([1, -1, 2, -2, 3])                       # shifted: touching / overlapping / disjoint copies
+        if r < 0.8:
+            return [(v, rng.choice([2, -1, Fraction(1, 2), -2]))], rng.choice([0, 0, 1])
+        w = rng.choice([u for u in range(nv) if u != v])
+        return sorted([(v, rng.choice([1, -1, 2])), (w, rng.choice([1, -1]))]), rng.choice([0, 0, 1, -1])
+
+    def pair():
+        r = rng.random()
+        a = expr()
+        if r < 0.15 and a[0]:
+            # b's interval strictly inside / around a's: same expression scaled towards its own middle is not available, so use
+            # the known variable intervals: pick two variables and shift one onto the other
+            return a, (a[0], a[1])
+        if r < 0.45:
+            v, w = rng.sample(range(nv), 2)
+            d = rng.choice([0, iv[v][0] - iv[w][0], iv[v][1] - iv[w][0], iv[v][0] - iv[w][1], iv[v][1] - iv[w][1], 1, -1])
+            return ([(v, 1)], 0), ([(w, 1)], d)      # w shifted so that ends coincide / cross / nest
+        return a, expr()
+    depth = 0
+    for _ in range(rng.randint(8, 18)):
+        r = rng.random()
+        if r < 0.6:
+            a, b = pair()
+            if rng.random() < 0.5:
+                a, b = b, a
+            sc.add("equates %s | %s" % (lin_str(*a), lin_str(*b)))
+        elif r < 0.8:
+            sc.add("query %s" % lin_str(*expr()))
+        elif r < 0.92 and k:
+            sc.add("assume %d %d" % (rng.randrange(k), 0))    # negating a root-true literal is skipped; new bound literals below
+            v = rng.randrange(nv)
+            kind = rng.choice(RELS)
+            sc.add("pop")
+            for _ in range(depth):
+                sc.add("pop")
+            depth = 0
+            sc.add("rel %s %s | %s" % (kind, lin_str([(v, 1)], 0), lin_str([], rng.choice([0, 1, 2, 3]))))
+            k += 1
+            sc.add("assume %d %d" % (k - 1, rng.randint(0, 1)))
+            depth = 1
+        else:
+            sc.add("pop")
+            depth = max(0, depth - 1)
     return sc
